@@ -124,6 +124,10 @@ type BlockInfo struct {
 	// MSL: address space of the buffer argument ("device", "constant") and
 	// the spelled type of the referenced object; Name is the argument name,
 	// Instance the entry point, Class 'b' ([[buffer(n)]]), Binding n or -1.
+	// HLSL: Class is the register class ('b', 't', 'u'), Binding the register
+	// number, Layout "cbuffer" or "raw", Space "space<N>" (register space, "space0"
+	// when the text has none), Type the resource kind ("cbuffer", "ConstantBuffer",
+	// "ByteAddressBuffer", "RWByteAddressBuffer"); see also Program.HLSLResources.
 	Space string
 	Type  string
 }
